@@ -190,4 +190,109 @@ let handle line =
       if m <> impl then mism line m
   | _ -> failwith ("unparsable line: " ^ short line)
 
-let () = iter_lines handle
+
+(* ---------------------------------------------------------------- action-sequence tie (Netlink/Program.v), mode `wire` *)
+let const_name (names : (int * string) list) (c : z) =
+  try "unix." ^ List.assoc (int_of_z c) names with Not_found -> "?const" ^ hz c
+
+let info_consts = [ (1, "IFLA_CAN_BITTIMING"); (2, "IFLA_CAN_BITTIMING_CONST"); (3, "IFLA_CAN_CLOCK"); (5, "IFLA_CAN_CTRLMODE"); (8, "IFLA_CAN_BERR_COUNTER") ]
+let linkinfo_consts = [ (1, "IFLA_INFO_KIND"); (2, "IFLA_INFO_DATA"); (3, "IFLA_INFO_XSTATS") ]
+let device_consts = [ (3, "IFLA_IFNAME"); (18, "IFLA_LINKINFO") ]
+
+(* the statements of a case body, relative depth 0 *)
+let act_body = function
+  | AUnmarshalBitTiming -> [ (0, "err = i.BitTiming.unmarshalBinary(nad.Bytes())") ]
+  | AUnmarshalBitTimingConst -> [ (0, "err = i.BitTimingConst.unmarshalBinary(nad.Bytes())") ]
+  | AUnmarshalClock -> [ (0, "err = i.Clock.unmarshalBinary(nad.Bytes())") ]
+  | AUnmarshalCtrlMode -> [ (0, "err = i.CtrlMode.unmarshalBinary(nad.Bytes())") ]
+  | AUnmarshalBerr -> [ (0, "err = i.BusErrorCounters.unmarshalBinary(nad.Bytes())") ]
+  | AKindCheck ->
+      [ (0, "li.linkType = nad.String()"); (0, "if (li.linkType != CanLinkType) && (li.linkType != VcanLinkType)");
+        (1, "return fmt.Errorf(\"not a CAN interface\")") ]
+  | ANestedInfo -> [ (0, "nad.Nested(li.info.decode)") ]
+  | AUnmarshalStats -> [ (0, "err = li.stats.unmarshalBinary(nad.Bytes())") ]
+  | AIfname -> [ (0, "d.ifname = ad.String()") ]
+  | ANestedLinkinfo -> [ (0, "ad.Nested(d.li.decode)"); (0, "d.li.info.Type = d.li.linkType") ]
+
+(* for <ad>.Next() { switch <ad>.Type() { cases; default: } [if err != nil { return err }] } at depth d *)
+let loop_nodes d ad names (w : (z * act) list) errcheck =
+  [ (d, "for " ^ ad ^ ".Next()"); (d + 1, "switch " ^ ad ^ ".Type()") ]
+  @ List.concat_map
+      (fun (c, a) -> (d + 2, "case " ^ const_name names c ^ ":") :: List.map (fun (k, t) -> (d + 3 + k, t)) (act_body a))
+      w
+  @ [ (d + 2, "default:") ]
+  @ if errcheck then [ (d + 1, "if err != nil"); (d + 2, "return err") ] else []
+
+let eact_text names (c, a) =
+  match a with
+  | EBytesBitTiming -> "nae.Bytes(" ^ const_name names c ^ ", i.BitTiming.marshalBinary())"
+  | EBytesCtrlMode -> "nae.Bytes(" ^ const_name names c ^ ", i.CtrlMode.marshalBinary())"
+  | EStringKind -> "nae.String(" ^ const_name names c ^ ", li.linkType)"
+  | ENestedInfo -> "nae.Nested(" ^ const_name names c ^ ", li.info.encode)"
+
+let wire_refs : (string * (int * string) list) list =
+  [ ("Info.decode",
+     [ (0, "func(nad *netlink.AttributeDecoder) error"); (1, "var err error") ]
+     @ loop_nodes 1 "nad" info_consts info_walk true @ [ (1, "return nil") ]);
+    ("linkInfoMsg.decode",
+     [ (0, "func(nad *netlink.AttributeDecoder) error"); (1, "var err error") ]
+     @ loop_nodes 1 "nad" linkinfo_consts linkinfo_walk true @ [ (1, "return nil") ]);
+    ("Device.unmarshalBinary",
+     [ (0, "func(data []byte) error"); (1, "if err := d.ifi.unmarshalBinary(data[:unix.SizeofIfInfomsg]); err != nil");
+       (2, "return fmt.Errorf(\"couldn't unmarshal ifInfoMsg: %w\", err)");
+       (1, "ad, err := netlink.NewAttributeDecoder(data[unix.SizeofIfInfomsg:])"); (1, "if err != nil"); (2, "return err");
+       (1, "if d.ifi.Type != unix.ARPHRD_CAN"); (2, "return fmt.Errorf(\"not a CAN interface\")") ]
+     @ loop_nodes 1 "ad" device_consts device_walk false
+     @ [ (1, "if err := ad.Err(); err != nil"); (2, "return fmt.Errorf(\"couldn't decode link: %w\", err)"); (1, "return nil") ]);
+    ("Info.encode",
+     ((0, "func(nae *netlink.AttributeEncoder) error") :: List.map (fun x -> (1, eact_text info_consts x)) info_encode_prog)
+     @ [ (1, "return nil") ]);
+    ("linkInfoMsg.encode",
+     ((0, "func(nae *netlink.AttributeEncoder) error") :: List.map (fun x -> (1, eact_text linkinfo_consts x)) linkinfo_encode_prog)
+     @ [ (1, "return nil") ]) ]
+
+let rec wire_first_diff i p q =
+  match (p, q) with
+  | [], [] -> None
+  | x :: p', y :: q' -> if x = y then wire_first_diff (i + 1) p' q' else Some i
+  | _, _ -> Some i
+
+let wire_main () =
+  let fns : (string, (int * string) list ref) Hashtbl.t = Hashtbl.create 16 in
+  let order = ref [] and whereis = Hashtbl.create 16 in
+  let errors = ref 0 and bad = ref 0 and ended = ref false in
+  (try
+     while true do
+       let l = input_line stdin in
+       match split_ws l with
+       | "NWFUNC" :: fn :: wh :: _ -> Hashtbl.replace fns fn (ref []); Hashtbl.replace whereis fn wh; order := !order @ [ fn ]
+       | "NW" :: fn :: d :: rest -> let r = Hashtbl.find fns fn in r := !r @ [ (int_of_string d, String.concat " " rest) ]
+       | "NWERR" :: _ -> incr errors; print_endline l
+       | [ "NWEND" ] -> ended := true
+       | _ -> ()
+     done
+   with End_of_file -> ());
+  let total = ref 0 and equal = ref 0 in
+  List.iter
+    (fun fn ->
+      let p = !(Hashtbl.find fns fn) in
+      total := !total + List.length p;
+      match List.assoc_opt fn wire_refs with
+      | None -> incr bad; Printf.printf "NWUNKNOWN %s %s || function has no reference program\n" fn (Hashtbl.find whereis fn)
+      | Some q -> (
+          match wire_first_diff 0 p q with
+          | None -> incr equal
+          | Some i ->
+              incr bad;
+              let show l = match List.nth_opt l i with Some (d, t) -> Printf.sprintf "depth %d: %s" d t | None -> "(program ends)" in
+              Printf.printf "NWDIFF %s node=%d %s || expected: %s || found: %s\n" fn i (Hashtbl.find whereis fn) (show q) (show p)))
+    !order;
+  List.iter
+    (fun (fn, _) ->
+      if not (Hashtbl.mem fns fn) then begin incr bad; Printf.printf "NWMISSING %s - || function of the reference not found in the source\n" fn end)
+    wire_refs;
+  if not !ended then begin incr errors; print_endline "NWERR ?:0 extractor output ends without NWEND" end;
+  Printf.printf "NWSTAT {\"functions\": %d, \"nodes\": %d, \"functions_equal_to_reference\": %d, \"extractor_errors\": %d, \"bad\": %d}\n"
+    (List.length !order) !total !equal !errors !bad
+
+let () = if Array.length Sys.argv > 1 && Sys.argv.(1) = "wire" then wire_main () else iter_lines handle
